@@ -25,6 +25,7 @@ Texts      == {"x & y <z>"}
 MergePool  == {"A1:B2", "D4:E9"}
 N(nm, loc, ref, addr, hid) == [name |-> nm, local |-> loc, ref |-> ref, addr |-> addr, hidden |-> hid]
 NamePool   == { N("Glob", -1, "S1", "'S1'!$A$1:$B$2", FALSE), N("Loc", 1, "S1", "'S1'!$C$3", FALSE),
+                N("First", 0, "My & Sheet", "'My & Sheet'!$B$2", FALSE),
                 N("Other", -1, "My & Sheet", "'My & Sheet'!$A$1", TRUE), N("Konst", -1, "", "42", FALSE),
                 N("Gone", -1, "Zed", "'Zed'!$A$1", FALSE) }
 Dv(sq, ty, op, f1, f2, pt, pr) == [sqref |-> sq, type |-> ty, op |-> op, blank |-> TRUE, showin |-> TRUE, showerr |-> FALSE,
